@@ -46,3 +46,15 @@ Proof.
   rewrite (stk_loop_end b1 [] _ H Hd). cbn [app bind]. f_equal. rewrite !map_map. apply map_ext_in. intros s Hs.
   rewrite forallb_forall in H. rewrite (bioseq_row s (H s Hs)). reflexivity.
 Qed.
+
+(* read() prefers read_<fmt> and falls back to list(iter_<fmt>), iter_() prefers iter_<fmt> and falls back to read_<fmt>
+   (main.py:232-255, 322-331); write() needs append_<fmt> or write_<fmt>. Each of the four plugins of /repo has exactly one
+   reader entry point and exactly one writer entry point, so read() and iter_() run the same plugin function and
+   'No read / write support' (RuntimeError) cannot happen in modes 'w' and 'a' *)
+Definition has_read (f : fmt) : bool :=
+  match f with Fasta => HAS_read_fasta | Stockholm => HAS_read_stockholm | Sjson => HAS_read_sjson | Gff => HAS_read_gff end.
+Definition has_iter (f : fmt) : bool :=
+  match f with Fasta => HAS_iter_fasta | Stockholm => HAS_iter_stockholm | Sjson => HAS_iter_sjson | Gff => HAS_iter_gff end.
+Theorem plugins_complete f : xorb (has_read f) (has_iter f) = true /\ xorb (has_append f) (has_write f) = true
+  /\ (forall b, exists c, write_dispatch f false true b = Ok c) /\ (forall b, exists c, write_dispatch f true false b = Ok c).
+Proof. destruct f; repeat split; intros; eexists; reflexivity. Qed.
